@@ -15,6 +15,8 @@ def validate_encoded(string):
       "{} is not a valid numeric array string\n".format(repr(string))+
       "(it must be one of [fcsiCSI] followed by a comma-separated list of:"+
       " for f: floats; for csi: signed integers; for CSI: unsigned integers)")
+  # the elements must fit the subtype (and floats must be finite)
+  gfapy.NumericArray.from_string(string)
 
 def validate_decoded(numeric_array):
   if not isinstance(numeric_array, list):
